@@ -43,6 +43,7 @@ func symFuncs() map[string]zygo.ZlispUserFunction {
 func newSymRoot() *zygo.Zlisp {
 	root := zygo.NewZlispWithFuncs(symFuncs())
 	root.ImportPackageBuilder()
+	root.ImportBaseTypes() // the type names (symbol among them) that (var x <type>) needs
 	return root
 }
 
@@ -111,6 +112,20 @@ func runSymCase(ops []symOp) (evs []any) {
 			} else {
 				evs = append(evs, map[string]any{"op": "fail", "m": o.M, "text": text, "out": projOutcome(env, out)})
 			}
+		case "eqq":
+			// equality of two symbols written as data (quoted, or read from text), with the plain parts of
+			// dotted names bound to equal values: symbols are equal exactly when their names are
+			form := "(== (quote %s) (quote %s))\n"
+			if o.Off == 1 {
+				form = "(== (read %q) (read %q))\n"
+			}
+			evalSafe(env, "(def zp 7)\n(def zq 7)\n")
+			out := evalSafe(env, fmt.Sprintf(form, o.A, o.B))
+			if b, ok := out.Val.(*zygo.SexpBool); ok && out.Kind == "val" {
+				evs = append(evs, map[string]any{"op": "eqq", "m": o.M, "a": o.A, "b": o.B, "res": []any{"bool", b.Val}})
+			} else {
+				evs = append(evs, map[string]any{"op": "eqq", "m": o.M, "a": o.A, "b": o.B, "res": []any{"err"}})
+			}
 		case "sgensym":
 			text := "(gensym)\n"
 			if o.Name != "" {
@@ -178,6 +193,8 @@ func init() {
 				symOp{Op: "sgensym", M: m, Name: ""},
 				symOp{Op: "varsym", M: m, Name: "var"},
 				symOp{Op: "varsym", M: m, Name: "quote"},
+				symOp{Op: "eqq", M: m, A: ".zp", B: ".zq"},
+				symOp{Op: "eqq", M: m, A: "zp", B: "zq"},
 			)
 			if m < 2 {
 				alpha = append(alpha, symOp{Op: "dup", M: m}, symOp{Op: "clone", M: m})
@@ -245,6 +262,8 @@ func init() {
 				case 4:
 					ops = append(ops, symOp{Op: "sgensym", M: m, Name: pick(r, []string{"", "g"})})
 					ops = append(ops, symOp{Op: "varsym", M: m, Name: pick(r, []string{"var", "quote", "read", "joinsym"})})
+					qn := []string{"zp", "zq", ".zp", ".zq", "zu.v", ".zunbound", "a", "qa"}
+					ops = append(ops, symOp{Op: "eqq", M: m, A: pick(r, qn), B: pick(r, qn), Off: r.intn(2)})
 				case 5:
 					if members < 5 {
 						ops = append(ops, symOp{Op: pick(r, []string{"dup", "clone"}), M: m})
